@@ -76,7 +76,7 @@ SPECS = {
                                  "use_bias": [True, False], "return_sequences": [False, True],
                                  "merge_mode": ["concat", "sum"], "backward": ["derived", "explicit"]}),
     "QAveragePooling2D": dict(stock="AveragePooling2D", w=["average_quantizer"], pool=True,
-                              axes={"H": [6, 5], "W": [6, 7], "c": [3, 1], "pool": [2, 3], "strides": [None, 1, 2],
+                              axes={"H": [6, 5], "W": [6, 7], "c": [3, 1], "pool": [2, 3, (2, 3), (3, 1)], "strides": [None, 1, 2],
                                     "padding": ["valid", "same"]}),
     "QGlobalAveragePooling2D": dict(stock="GlobalAveragePooling2D", w=["average_quantizer"], pool=True,
                                     axes={"H": [6, 5], "W": [6, 7], "c": [3, 1]}),
